@@ -378,6 +378,41 @@ Proof.
   - destruct (Z.gtb_spec (byte_size (msg_version c) m) (c_max_message_bytes c)); repeat split; intros; try discriminate; lia.
 Qed.
 
+(* with interceptors: the size that is tested is the size AFTER the interceptor chain, and the message that is
+   forwarded is that intercepted message — so growing a message over the limit gets it rejected, and shrinking an
+   oversized one to a legal size gets it accepted *)
+Theorem oversize_rejected_intercepted : forall c chain m,
+  let m' := intercept chain m in
+  snd (dispatcher_admit c chain m) = m' /\
+  (byte_size (msg_version c) m' > c_max_message_bytes c -> fst (dispatcher_admit c chain m) <> DForward) /\
+  (fst (dispatcher_admit c chain m) = DForward -> byte_size (msg_version c) m' <= c_max_message_bytes c) /\
+  (fst (dispatcher_admit c chain m) = DRejectTooLarge -> byte_size (msg_version c) m' > c_max_message_bytes c) /\
+  (byte_size (msg_version c) m' <= c_max_message_bytes c -> fst (dispatcher_admit c chain m) <> DRejectTooLarge).
+Proof.
+  intros c chain m m'. unfold dispatcher_admit. fold m'. cbn [fst snd].
+  destruct (oversize_rejected c m') as [H1 [H2 H3]].
+  split; [reflexivity|]. split; [exact H1|]. split; [exact H2|]. split; [exact H3|].
+  intros Hle Hr. apply H3 in Hr. apply (Z.lt_irrefl (c_max_message_bytes c)).
+  apply Z.lt_le_trans with (byte_size (msg_version c) m'); [apply Z.gt_lt; exact Hr | exact Hle].
+Qed.
+
+(* the pipeline: application messages -> interceptors + dispatcher -> the worker; whatever is handed to the bridge is
+   an intercepted message that passed the test on its intercepted size *)
+Definition admitted (c : cfg) (chain : list interceptor) (m' : msg) : Prop :=
+  exists m, m' = intercept chain m /\ fst (dispatcher_admit c chain m) = DForward.
+
+Theorem only_admitted_sent : forall c chain evs set k p m',
+  Forall (ev_ok (fun x => msg_wf x /\ admitted c chain x)) evs ->
+  In (Sent set) (snd (run c binit evs)) -> In (k, p) (s_parts set) -> In m' (ps_msgs p) ->
+  admitted c chain m' /\ byte_size (msg_version c) m' <= c_max_message_bytes c.
+Proof.
+  intros c chain evs set k p m' Hev Hin Hk Hm.
+  pose proof (run_sent_inv c (fun x => msg_wf x /\ admitted c chain x) (fun x H => proj1 H) evs set Hev Hin) as Hinv.
+  destruct (set_inv_all_P c _ set k p m' Hinv Hk Hm) as [_ Ha].
+  split; [exact Ha|]. destruct Ha as [m [-> Hf]].
+  exact (proj1 (proj2 (proj2 (oversize_rejected_intercepted c chain m))) Hf).
+Qed.
+
 (* a worker fed only with messages the dispatcher forwarded never hands over anything else *)
 Theorem only_forwarded_sent : forall c evs set k p m,
   Forall (ev_ok (fun m => msg_wf m /\ dispatcher_check c m = DForward)) evs ->
@@ -473,6 +508,16 @@ Proof. vm_compute. split; reflexivity. Qed.
 
 Example ex_oversize : dispatcher_check ex_cfg (ex_msg 1 165) = DRejectTooLarge /\ dispatcher_check ex_cfg (ex_msg 1 164) = DForward.
 Proof. vm_compute. split; reflexivity. Qed.
+
+Example ex_intercept_grow_and_shrink :
+  let grow : interceptor := fun m => {| m_id := m_id m; m_topic := m_topic m; m_part := m_part m; m_key := m_key m;
+     m_val := Some (olen (m_val m) + 1); m_headers := m_headers m; m_has_headers := m_has_headers m; m_encfail := m_encfail m |} in
+  let shrink : interceptor := fun m => {| m_id := m_id m; m_topic := m_topic m; m_part := m_part m; m_key := m_key m;
+     m_val := Some 10; m_headers := m_headers m; m_has_headers := m_has_headers m; m_encfail := m_encfail m |} in
+  dispatcher_check ex_cfg (ex_msg 1 164) = DForward /\ fst (dispatcher_admit ex_cfg [grow] (ex_msg 1 164)) = DRejectTooLarge /\
+  dispatcher_check ex_cfg (ex_msg 1 999) = DRejectTooLarge /\ fst (dispatcher_admit ex_cfg [shrink] (ex_msg 1 999)) = DForward.
+Proof. vm_compute. repeat split; reflexivity. Qed.
+
 
 (* Observation (not a violation of C16): the loop's `output` is not recomputed after a `continue`, so a buffer that a
    response has just emptied can still be handed to the bridge — an empty produce request.  MaxMessages = 1, no triggers:
